@@ -84,6 +84,50 @@ Theorem C13_disabled_accepts_all : forall c d t size,
   o_accept o = true /\ o_pulled o = size /\ o_closed o = false.
 Proof. exact disabled_accepts_all. Qed.
 
+(** Exactly which messages are accepted: those for which the receiving side has no limit, or
+    that fit it (the polling client has none; every other receiver has the server's limit). *)
+Theorem C13_accept_iff : forall c d t size,
+  (0 <= size)%Z ->
+  (o_accept (decide c d t size) = true <->
+   (effective_max c <= 0 \/ size <= effective_max c \/ (d = S2C /\ t <> WS))%Z).
+Proof. exact accept_iff. Qed.
+
+(** Sessions (any number of messages in a row on one transport): what is delivered is a prefix of
+    what was sent, all of it unless the receiver closed the transport, and it closed it at a
+    message it refuses. *)
+Theorem C13_session_prefix : forall c d t sizes,
+  let '(dl, cl) := session c d t sizes in
+  exists rest, sizes = dl ++ rest /\
+    Forall (fun s => o_accept (decide c d t s) = true) dl /\
+    (cl = false -> rest = []) /\
+    (cl = true -> exists s rest', rest = s :: rest' /\ o_accept (decide c d t s) = false).
+Proof. exact session_prefix. Qed.
+
+(** A session of messages that are all within the announced limit is delivered whole and stays
+    open, in both directions on every transport. *)
+Theorem C13_session_all_within : forall c d t sizes,
+  Forall (fun s => (0 <= s)%Z /\ within_announced c s) sizes ->
+  session c d t sizes = (sizes, false).
+Proof. exact session_all_within. Qed.
+
+(** In no session does the server deliver a message over the limit. *)
+Theorem C13_session_server_delivers_within : forall c t sizes,
+  limit_on c -> Forall (fun s => (0 <= s)%Z) sizes ->
+  Forall (fun s => (s <= the_limit c)%Z) (fst (session c C2S t sizes)).
+Proof. exact session_server_delivers_within. Qed.
+
+(** The POST handler on top of the MaxBytesReader relation: whatever run the reader takes, the
+    handler answers as [post_decision] says. *)
+Theorem C13_post_handler_exact : forall declared body max r,
+  (0 <= body)%Z -> (0 < max)%Z -> (content_length declared <= max)%Z ->
+  mbr_run body max 0 0 r ->
+  post_decision declared body max =
+    match fst r with
+    | RDone _ => accepted 200 (snd r)
+    | RTooBig _ => rejected 413 (snd r)
+    end.
+Proof. exact post_decision_is_handler. Qed.
+
 (** The WebSocket library's per-message limit reader (SetReadLimit(l) stores l+1), run under
     io.ReadAll over EVERY way of cutting the message into frames and reads, accepts exactly the
     messages of at most l bytes and hands on l+1 bytes of a longer one; some run always exists. *)
